@@ -11,7 +11,7 @@ Two printing styles:
 """
 import macrolang as ML
 
-PRIMS = ['bgroup', 'egroup', 'def', 'gdef', 'relax', 'else', 'fi', 'iftrue', 'iffalse', 'ifnum', 'ifcase', 'newcommand', 'renewcommand', 'let']
+PRIMS = ['bgroup', 'egroup', 'def', 'gdef', 'relax', 'else', 'fi', 'iftrue', 'iffalse', 'ifnum', 'ifcase', 'newcommand', 'renewcommand', 'let', 'ifodd', 'newif']
 
 
 # ---- names of Spec/MacroPrint.v -------------------------------------------------------------------
@@ -36,6 +36,10 @@ def fword(w):
     return 'W' + zcode(w)
 
 
+def fsw(n):
+    return 'zs' + zcode(n)
+
+
 # ---- printer ---------------------------------------------------------------------------------------
 
 class Pr:
@@ -50,6 +54,9 @@ class Pr:
     def word(self, w):
         return fword(w) if self.style == 'f' else ML.word(w)
 
+    def sw(self, n):
+        return fsw(n) if self.style == 'f' else ML.swname(n)
+
     def nodes(self, ns):
         return ''.join(self.node(n) for n in ns)
 
@@ -58,7 +65,13 @@ class Pr:
             return '\\iftrue '
         if t[0] == 'false':
             return '\\iffalse '
+        if t[0] == 'switch':
+            return '\\if%s ' % self.sw(t[1])
         term = '\\relax '
+        if t[0] == 'odd':
+            if self.style != 'f' and len(t) > 2:
+                term = t[2]
+            return '\\ifodd %d%s' % (t[1][1], term)
         if self.style != 'f' and len(t) > 4:
             term = t[4]
         return '\\ifnum %d%s%d%s' % (t[1][1], t[2], t[3][1], term)
@@ -109,6 +122,10 @@ class Pr:
             return s + ''.join('{' + self.nodes(a) + '}' for a in args)
         if k == 'let':
             return '\\let\\%s=\\%s ' % (self.mac(n[1]), self.mac(n[2]))
+        if k == 'newsw':
+            return '\\newif\\if%s ' % self.sw(n[1])
+        if k == 'setsw':
+            return '\\%s%s ' % (self.sw(n[1]), 'true' if n[2] else 'false')
         if k == 'param':
             return '#%d' % n[1]
         if k == 'param2':
@@ -137,7 +154,7 @@ def to_source(prog, style):
 DELIMS = ['.', ',', ';', ':']
 
 
-def gen_prog(rng, f1_only=False, max_params=3, delims=True, allow_nested=True, newcommands=True, lets=True):
+def gen_prog(rng, f1_only=False, max_params=3, delims=True, allow_nested=True, newcommands=True, lets=True, switches=True):
     """a program of the fragment; f1_only: no parameters at all (fragment F1 of the theorem); otherwise undelimited
     (and a few delimited) parameters.  Bodies call only lower-numbered macros, so expansion terminates."""
     nmac = rng.randint(1, 4)
@@ -151,6 +168,7 @@ def gen_prog(rng, f1_only=False, max_params=3, delims=True, allow_nested=True, n
             how = {'kind': 'newcommand', 'opt': np < max(max_params, 3) and rng.random() < 0.7}
         sigs[i] = (np, how)
     gok = {i for i in sigs if rng.random() < 0.4 or sigs[i][1].get('kind') == 'newcommand'}     # ids that may be \\gdef'ed: these are never defined locally inside a group or a body
+    nsw = 0 if (f1_only or not switches) else rng.choice([0, 0, 1, 2])
     w = [0]
     nested = allow_nested and rng.random() < 0.5     # a program uses either literal ## or definitions nested in bodies, never both
     inner_ids = [0]
@@ -173,6 +191,10 @@ def gen_prog(rng, f1_only=False, max_params=3, delims=True, allow_nested=True, n
             return ['true']
         if r < 0.6:
             return ['false']
+        if r < 0.7:
+            return ['odd', ['lit', rng.choice([0, 1, 2, 3, 7, 10, 12, 99, 120]), 'plain']]
+        if nsw and r < 0.82:
+            return ['switch', rng.randrange(nsw)]
         t = ['num', ['lit', rng.choice([0, 1, 2, 3, 7, 10, 12, 99, 120]), 'plain'], rng.choice('<>='),
              ['lit', rng.choice([0, 1, 2, 3, 7, 10, 12, 99, 120]), 'plain']]
         return t
@@ -211,17 +233,17 @@ def gen_prog(rng, f1_only=False, max_params=3, delims=True, allow_nested=True, n
             elif depth > 0 and r < 0.8:
                 t = test()
                 thn = content(depth - 1, params, ids, n=rng.randint(0, 2), allow_def=False, simple_args=simple_args)
-                if t[0] == 'num' and rng.random() < 0.45:
+                if t[0] in ('num', 'odd') and rng.random() < 0.45:
                     # other ways to end the second number: a blank (in front of anything: \\fi, \\else, a call, a brace, a word - since
                     # fix c654904 readInteger only peeks at the next token) or a blank followed by \\relax
-                    # '' : the digits are directly followed by \\fi / \\else / a word / a conditional (fix 076499b).  Not by a call, a
-                    # parameter or a brace: a user macro met while scanning the number is expanded with the full expanding
-                    # iterator, which runs on to its first yield and so executes a following { or \\def (residual defect, reported)
-                    direct_ok = (not thn) or thn[0][0] in ('word', 'cond', 'case')
-                    t.append(rng.choice([' ', ' ', ' \\relax '] + (['', ''] if direct_ok else [])))
+                    # '' : the digits are directly followed by whatever comes next: \\fi, \\else, a word, a conditional, a brace, a call
+                    # (a user macro met while scanning the number is expanded one step at a time: fixes 076499b, 9658874)
+                    t.append(rng.choice([' ', ' ', ' \\relax ', '', '']))
                 out.append(['cond', t, thn,
                             content(depth - 1, params, ids, n=rng.randint(0, 2), allow_def=False, simple_args=simple_args)
                             if rng.random() < 0.5 else None])
+            elif nsw and r < 0.9 and r >= 0.86:
+                out.append(['setsw', rng.randrange(nsw), rng.random() < 0.5] if rng.random() < 0.85 else ['newsw', rng.randrange(nsw)])
             elif depth > 0 and not f1_only and r < 0.86:
                 sub = lambda: content(depth - 1, params, ids, n=rng.randint(0, 2), allow_def=False, simple_args=simple_args)
                 out.append(['case', ['lit', rng.choice([0, 0, 1, 1, 2, 3, 7]), 'plain'], [sub() for _ in range(rng.randint(1, 3))],
@@ -294,6 +316,10 @@ def gen_prog(rng, f1_only=False, max_params=3, delims=True, allow_nested=True, n
                 out += content(2, 0, visible(), n=1)
         return out
     prog = []
+    for k in range(nsw):
+        prog.append(['newsw', k])
+        if rng.random() < 0.3:
+            prog.append(['setsw', k, rng.random() < 0.5])
     for i in range(nmac):
         if rng.random() < 0.8:
             prog.append(mkdef(i, False))
@@ -333,9 +359,7 @@ def in_f1(prog):
                 return False
         elif k == 'cond':
             t = n[1]
-            if t[0] == 'num' and (t[1][0] != 'lit' or t[3][0] != 'lit' or t[1][1] < 0 or t[3][1] < 0):
-                return False
-            if t[0] not in ('true', 'false', 'num'):
+            if not _test_ok(t):
                 return False
             if not in_f1(n[2]) or (n[3] is not None and not in_f1(n[3])):
                 return False
@@ -347,6 +371,8 @@ def in_f1(prog):
 def _test_ok(t):
     if t[0] in ('true', 'false'):
         return True
+    if t[0] == 'odd':
+        return t[1][0] == 'lit' and t[1][1] >= 0
     return t[0] == 'num' and t[1][0] == 'lit' and t[3][0] == 'lit' and t[1][1] >= 0 and t[3][1] >= 0
 
 
@@ -432,7 +458,7 @@ def T(c, s):
 
 SOUP = [T(11, 'a'), T(11, 'b'), T(10, ' '), T(1, '{'), T(2, '}'), T(6, '#'), T(12, '1'), T(12, '2'), T(12, '<'), T(12, '='), T(12, '>'),
         T(12, '-'), T(12, '+'), T(0, 'def'), T(0, 'gdef'), T(0, 'zqa'), T(0, 'zqb'), T(0, 'iftrue'), T(0, 'iffalse'), T(0, 'ifnum'),
-        T(0, 'else'), T(0, 'fi'), T(0, 'relax'), T(0, 'ifcase'), T(0, 'or'), T(0, 'newcommand'), T(12, '['), T(12, ']'), T(12, '*'), T(0, 'let'), T(0, 'let')]
+        T(0, 'else'), T(0, 'fi'), T(0, 'relax'), T(0, 'ifcase'), T(0, 'or'), T(0, 'newcommand'), T(12, '['), T(12, ']'), T(12, '*'), T(0, 'let'), T(0, 'let'), T(0, 'ifodd'), T(0, 'newif'), T(0, 'newif'), T(0, 'ifzsa'), T(0, 'zsatrue'), T(0, 'zsafalse'), T(0, 'ifzsa')]
 SMALL = [T(11, 'a'), T(10, ' '), T(1, '{'), T(2, '}'), T(6, '#'), T(12, '1'), T(12, '<'), T(0, 'def'), T(0, 'zqa'), T(0, 'iftrue'),
          T(0, 'ifnum'), T(0, 'else'), T(0, 'fi'), T(0, 'relax')]
 
